@@ -95,3 +95,6 @@ func (m *Nitro) VerifNewFileReader(ver int) FileReader { return m.newFileReader(
 
 // VerifNewItem allocates an item holding data (Go-managed memory).
 func (m *Nitro) VerifNewItem(data []byte) *Item { return m.newItem(data, false) }
+
+// VerifGCList returns the head and tail of the writer's pending garbage list.
+func (w *Writer) VerifGCList() (head, tail *skiplist.Node) { return w.gchead, w.gctail }
